@@ -177,9 +177,24 @@ def evaluate(case, out):
                           lambda: {"WO": WO, "IRV": IRV, "want": (neb, nen)}):
             return
     S0 = set(c for c in cands if c != root)
+    S_own = set(S0)
+    if (len(cands) + len(neb)) % 2 == 0:
+        # an earlier stage of the same report, run with warnings promoted to errors (python -W error): the tree before any
+        # assertion is known (every leaf unpruned), on the caller's own set of remaining candidates; if the library warns
+        # about the unpruned leaves the stage stops there. The caller then builds the real tree with that same set object
+        import warnings
+
+        with warnings.catch_warnings():
+            warnings.simplefilter("error")
+            try:
+                with contextlib.redirect_stdout(io.StringIO()):
+                    viz.buildRemainingTreeAsLists(root, S_own, [], [])
+            except Warning:
+                pass
+        out.cls("same-set-object-after-an-earlier-stage-under--W-error")
     try:
         with contextlib.redirect_stdout(io.StringIO()):
-            tree = viz.buildRemainingTreeAsLists(root, set(S0), list(WO), list(IRV))
+            tree = viz.buildRemainingTreeAsLists(root, S_own, list(WO), list(IRV))
     except Exception as e:  # noqa
         out.lib_exception("buildRemainingTreeAsLists", e)
         return
